@@ -11,7 +11,11 @@ import (
 
 func (m *Machine) pushFrame(s *State, fn *ssa.Function, args []Value, free []Value, dest ssa.Value) {
 	if fn.Blocks == nil {
-		s.fail("unsupported", "no body: "+fn.String())
+		chain := ""
+		for i := len(s.frames) - 1; i >= 0 && i >= len(s.frames)-4; i-- {
+			chain += " <- " + s.frames[i].fn.String()
+		}
+		s.fail("unsupported", "no body: "+fn.String()+chain)
 		return
 	}
 	m.funcsSeen[fn.String()]++
@@ -421,6 +425,37 @@ func (m *Machine) intrinsic(s *State, f *Frame, x *ssa.Call, name string, callee
 		f.env[x] = Ptr{obj: s.alloc(m.zero(et))}
 		return nil, true
 	case strings.HasSuffix(name, ").ReturnToVTPool") || strings.HasSuffix(name, ").ResetVT"):
+		return nil, true
+	case name == "encoding/json.Marshal":
+		v := args[0].(IfaceV)
+		var content Value = v.v
+		typ := ""
+		if v.typ != nil {
+			typ = "json:" + v.typ.String()
+			if p, ok := v.v.(Ptr); ok && p.obj != 0 {
+				if pt, ok := v.typ.(*types.Pointer); ok {
+					content = s.load(p)
+					typ = "json:" + pt.Elem().String()
+				}
+			}
+		}
+		m.stubs["encoding/json Marshal/Unmarshal as box"]++
+		id := s.alloc(BoxV{v: content, typ: typ})
+		f.env[x] = TupleV{[]Value{SliceV{obj: id, len: 1, cap: 1}, IfaceV{}}}
+		return nil, true
+	case name == "encoding/json.Unmarshal":
+		sl := args[0].(SliceV)
+		dst := args[1].(IfaceV)
+		m.stubs["encoding/json Marshal/Unmarshal as box"]++
+		if pt, ok := dst.typ.(*types.Pointer); ok && sl.obj != 0 {
+			if bx, ok := s.heap[sl.obj].v.(BoxV); ok && bx.typ == "json:"+pt.Elem().String() {
+				s.store(dst.v.(Ptr), bx.v)
+				f.env[x] = IfaceV{}
+				return nil, true
+			}
+		}
+		m.nerr++
+		f.env[x] = IfaceV{typ: x.Type(), v: &ErrV{id: m.nerr, msg: "json: cannot parse"}}
 		return nil, true
 	case name == "google.golang.org/protobuf/proto.Unmarshal":
 		sl := args[0].(SliceV)
